@@ -2,8 +2,10 @@
 
 Correspondence for AntismashResults.write_to_file and dump_records under injected conversion faults (every
 event position: the four per-record conversions, every module's to_json, every custom-object conversion
-inside json.dumps, missing results, non-ModuleResults values) with a pre-existing target file, and for
-prepare_output_directory on real temporary directories (entry classes x run mode)."""
+inside json.dumps, missing results, non-ModuleResults values) with a pre-existing target file; for
+prepare_output_directory on real temporary directories (entry classes x run mode x where the log file lives x
+current directory); and for the order of main._run_antismash (real function, real prepare_output_directory
+and write_to_file, recorded collaborators with injected stage faults)."""
 import fnmatch
 import hashlib
 import io
@@ -24,7 +26,7 @@ EXC = {1: ValueError, 2: AssertionError, 3: IndexError, 4: KeyError, 5: TypeErro
        10: AttributeError, 99: OSError}
 FAULT_KINDS = [1, 4, 5, 9, 3, 10, 2, 99]
 LATE_EXC = {3: ValueError, 4: KeyError, 5: TypeError, 6: RuntimeError}
-FINDING_CLASSES = {1: "hidden_entry_ignored", 2: "glob_metachar_dirname"}
+FINDING_CLASSES = {1: "hidden_entry_ignored", 2: "glob_metachar_dirname", 3: "cwd_entry_taken_for_logfile"}
 
 
 def local_err_code(exc):
@@ -41,6 +43,7 @@ class Hooks:
         self.path = path
         self.sink = sink
         self.trace = []
+        self.phase = "write"      # "pipeline" while _run_antismash is outside results.write_to_file
 
     def state(self):
         if self.sink is not None:
@@ -77,6 +80,35 @@ class Sink(io.StringIO):
         if not self.writes:
             return 1
         return 3 if self.getvalue() else 2
+
+
+class FullDeviceFile:
+    """ what open(path, "w") returns on a device without space: the open itself succeeded (and truncated
+        the file), every write raises OSError """
+    def __init__(self, real):
+        self.real = real
+
+    def write(self, _text):
+        self.real.close()
+        raise OSError(28, "No space left on device")
+
+    def close(self):
+        self.real.close()
+
+    def __enter__(self):
+        return self
+
+    def __exit__(self, *_args):
+        self.real.close()
+        return False
+
+    def __getattr__(self, name):
+        return getattr(self.real, name)
+
+
+def full_device_open(path, mode="r", *args, **kwargs):
+    real = open(path, mode, *args, **kwargs)  # pylint: disable=consider-using-with
+    return FullDeviceFile(real) if "w" in mode else real
 
 
 class Custom:
@@ -140,6 +172,8 @@ def classes():
             return BioProxy(bio, lambda: self._step(2, spec[1]))
 
         def get_regions(self):
+            if self._c20[0].phase == "pipeline":       # the "did detection find anything" test of _run_antismash
+                return [object()] if self.pipeline_regions else []
             self._step(3, self._c20[2][2])
             return super().get_regions()
 
@@ -206,18 +240,9 @@ def enc_returned(data):
     return out
 
 
-def impl_write(fn, hk, tl, records, results, workdir):
-    """ runs the real write_to_file (fn 1) / dump_records (fn 2); returns the encoded outcome """
-    from antismash.common import serialiser
+def build_objects(hooks, records, results):
+    """ real Record / ModuleResults subclasses armed with the fault plan """
     cls = classes()
-    path = os.path.join(workdir, "missing_dir" if hk == 3 else "", "results.json")
-    if os.path.exists(path):
-        os.remove(path)
-    if hk in (0, 2, 4):
-        with open(path, "wb") as handle:
-            handle.write(OLD)
-    sink = Sink() if hk == 2 else None
-    hooks = Hooks(path, sink)
     recs = []
     for i, spec in enumerate(records):
         rec = cls["Record"]("ACGT" * 5)
@@ -237,11 +262,29 @@ def impl_write(fn, hk, tl, records, results, workdir):
             else:
                 entry[f"m{j}"] = {"v": spec[2]}     # e.g. JSON of a previous run that was never regenerated
         res.append(entry)
+    return recs, res
+
+
+def impl_write(fn, hk, tl, records, results, workdir):
+    """ runs the real write_to_file (fn 1) / dump_records (fn 2); returns the encoded outcome """
+    from antismash.common import serialiser
+    cls = classes()
+    path = os.path.join(workdir, "missing_dir" if hk == 3 else "", "results.json")
+    if os.path.exists(path):
+        os.remove(path)
+    if hk in (0, 2, 4, 5):
+        with open(path, "wb") as handle:
+            handle.write(OLD)
+    sink = Sink() if hk == 2 else None
+    hooks = Hooks(path, sink)
+    recs, res = build_objects(hooks, records, results)
     timings = {"r0": {"some.module": late_object(hooks, 7, 0, 0, 0, tl) if tl else 1.5}}
-    handle = {0: path, 1: path, 3: path, 2: sink, 4: None}[hk]
+    handle = {0: path, 1: path, 3: path, 2: sink, 4: None, 5: path}[hk]
+    if hk == 5:
+        serialiser.open = full_device_open      # the module's global name shadows the builtin
     counter = ErrorCounter()
     root = logging.getLogger()
-    root.addHandler(counter)
+    other_handlers, root.handlers = root.handlers, [counter]     # e.g. the stderr handler of logging.basicConfig
     logging.disable(logging.NOTSET)
     wrapped = 0
     try:
@@ -257,7 +300,9 @@ def impl_write(fn, hk, tl, records, results, workdir):
         wrapped = int(isinstance(exc, TypeError) and str(exc).startswith("Failed to convert JSON results"))
     finally:
         logging.disable(logging.CRITICAL)
-        root.removeHandler(counter)
+        root.handlers = other_handlers
+        if hk == 5:
+            del serialiser.open
     del recs, res
     # the target afterwards
     if hk == 2:
@@ -349,6 +394,7 @@ def gen_write_cases(chk, budget):
             results = [[(2, 0, m[2], m[3]) for m in mods] for mods in results]
             for fn in (1, 2):
                 out.append((fn, 0, 0, records, results))
+                out.append((fn, 5, 0, records, results))        # I/O failure after truncation, no conversion fault
                 for pos in positions(records, results):
                     for kind in (kinds if pos[0] in "rm" else kinds[:1]):
                         plan = apply_fault(records, results, 0, pos, kind, rng)
@@ -364,7 +410,7 @@ def gen_write_cases(chk, budget):
         for _ in range(nfaults):
             pos = positions(records, results)
             records, results, tl = apply_fault(records, results, tl, rng.choice(pos), rng.choice(FAULT_KINDS), rng)
-        hks = [0, 0, 0, 0, 1, 2, 3] + ([4, 4] if fn == 2 else [])
+        hks = [0, 0, 0, 0, 1, 2, 3, 5] + ([4, 4] if fn == 2 else [])
         out.append((fn, rng.choice(hks), tl, records, results))
     return out
 
@@ -372,7 +418,8 @@ def gen_write_cases(chk, budget):
 def describe_write(fn, hk, tl, records, results):
     return {"function": {1: "AntismashResults.write_to_file", 2: "dump_records"}[fn],
             "handle": {0: "path of an existing file", 1: "path of a new file", 2: "open file-like object",
-                       3: "path in a missing directory", 4: "None"}[hk],
+                       3: "path in a missing directory", 4: "None",
+                       5: "path of an existing file; open succeeds, write raises OSError (no space left)"}[hk],
             "timings_object": tl,
             "records [fault to_biopython, record_to_json, gather_record_areas, get_gc_content, original_id]": records,
             "results [kind 0 None/2 ModuleResults/1 other, to_json fault, value, object met by json.dumps]": results}
@@ -388,7 +435,14 @@ ENTRY_MAKERS = {
     "hidden_region": lambda k: (f".h{k}.region001.gbk", False), "hidden_dir": lambda k: (".git", True),
     "xinput": lambda k: ("myinput", True), "json": lambda k: ("in.json", False),
     "log_region": lambda k: ("log.region001.gbk", False), "gbk": lambda k: (f"rec{k}.gbk", False),
+    "logdir": lambda k: ("run.log", True),
 }
+# where the log file lives -> directory identifier of the model (apath.p_dir): directly in the output
+# directory, in its parent, in a sub-directory of it, in an unrelated directory
+LOG_WHERE = {"inside": 0, "parent": 1, "sub": 2, "logs": 3}
+# the current directory -> (directory it lies in, per the model)
+CWD_DIR = {"default": 9, "base": 5, "outdir": 1, "entry": 0}
+N_SPELLINGS = 5
 
 
 def tree_digest(path):
@@ -404,32 +458,48 @@ def tree_digest(path):
         return hashlib.md5(handle.read()).hexdigest()
 
 
-def impl_prepare(kind, reuse, dmeta, classes_, logmode, base):
+def spell(path, spelling, cwd):
+    """ different spellings of the same path: os.path.abspath must see through all of them """
+    head, tail = os.path.split(path)
+    if spelling == 1:
+        return head + "/./" + tail
+    if spelling == 2:
+        return os.path.join(head, "..", os.path.basename(head), tail)
+    if spelling == 3:
+        return os.path.relpath(path, cwd)
+    if spelling == 4:
+        return head + "//" + tail
+    return path
+
+
+def impl_prepare(kind, reuse, dmeta, classes_, logspec, cwdspec, relname, base):
     """ builds the directory from entry classes, calls the real prepare_output_directory,
-        returns (flat input, output, observed, names) """
-    specs = []
-    for k, cls in enumerate(classes_):
-        entry, isdir = ENTRY_MAKERS[cls](k)
-        specs.append((entry, isdir, cls in ("log", "log_region")))
-    return impl_prepare_specs(kind, reuse, dmeta, specs, logmode, base)
+        returns (flat input, output, observed, description) """
+    specs = [ENTRY_MAKERS[cls](k) for k, cls in enumerate(classes_)]
+    if logspec and isinstance(logspec[1], int):        # the log file is named like the entry with that index
+        logspec = (logspec[0], specs[logspec[1] % len(specs)][0] if specs else "run.log", logspec[2])
+    return impl_prepare_specs(kind, reuse, dmeta, specs, logspec, (cwdspec, None), relname, base)
 
 
-def impl_prepare_specs(kind, reuse, dmeta, specs, logmode, base):
-    """ specs: (entry name, is directory, is the log file) """
+def impl_prepare_specs(kind, reuse, dmeta, specs, logspec, cwdspec, relname, base, action=None, json_name=None):
+    """ specs: (entry name, is directory); logspec: None (config.logfile == "") or (where, base name, spelling);
+        cwdspec: (kind of current directory, entry name or None); relname: the output directory is given
+        relative to the current directory.  Everything the model is told (where the log file lives, which
+        entry has its name, where the current directory is) is known BY CONSTRUCTION, nothing is computed
+        with the path functions the code under test uses """
     from antismash import main
     from antismash.config import update_config
     for old in os.listdir(base):
         full = os.path.join(base, old)
         shutil.rmtree(full) if os.path.isdir(full) else os.remove(full)
     name = os.path.join(base, "out[1]" if dmeta else "out")
-    logfile = ""
     names = []
     if kind == 2:
         with open(name, "w") as handle:
             handle.write("a file")
     elif kind == 1:
         os.mkdir(name)
-        for k, (entry, isdir, islog) in enumerate(specs):
+        for k, (entry, isdir) in enumerate(specs):
             full = os.path.join(name, entry)
             if os.path.exists(full):
                 continue
@@ -437,75 +507,406 @@ def impl_prepare_specs(kind, reuse, dmeta, specs, logmode, base):
                 os.mkdir(full)
                 with open(os.path.join(full, "inner.txt"), "w") as handle:
                     handle.write(f"inner {k}")
+            elif entry == json_name:
+                with open(full, "wb") as handle:
+                    handle.write(OLD)                 # the results of the previous run
             else:
                 with open(full, "w") as handle:
                     handle.write(f"content {k}")
-            if islog:
-                logfile = full
         names = os.listdir(name)     # scandir order = the order glob yields
-    if not logfile and logmode == 1:
-        logfile = os.path.join(base, "outside.log")
-    elif not logfile and logmode == 2:
-        logfile = os.path.join(name, "absent.log")
+    isdir_of = {entry: os.path.isdir(os.path.join(name, entry)) for entry in names}
+    subdirs = [entry for entry in names if isdir_of[entry]]
+    # the current directory
+    cwd_kind, cwd_entry = cwdspec
+    if cwd_kind == "entry" and cwd_entry is None:
+        cwd_entry = subdirs[0] if subdirs else None
+    if cwd_kind == "entry" and (cwd_entry not in subdirs):
+        cwd_kind = "default"
+    if cwd_kind == "outdir" and kind != 1:
+        cwd_kind = "default"
+    original_cwd = os.getcwd()
+    cwd = {"default": original_cwd, "base": base, "outdir": name,
+           "entry": os.path.join(name, cwd_entry or "")}[cwd_kind]
+    # the log file
+    logfile = ""
+    log_where = None
+    if logspec:
+        log_where, logname, spelling = logspec
+        if log_where == "sub" and not subdirs:
+            log_where = "logs"
+        if log_where != "inside" or kind == 1:
+            logdir = {"inside": name, "parent": base, "logs": os.path.join(base, "logs"),
+                      "sub": os.path.join(name, subdirs[0]) if subdirs else ""}[log_where]
+            os.makedirs(logdir, exist_ok=True)
+            logpath = os.path.join(logdir, logname)
+            if log_where != "inside" and not os.path.exists(logpath):
+                with open(logpath, "w") as handle:
+                    handle.write("the real log file")
+            logfile = spell(logpath, spelling, cwd)
+        else:
+            logfile = spell(os.path.join(name, logname), spelling, cwd)
     entries = []
     digests = {}
-    for entry in names:
+    for index, entry in enumerate(names):
         full = os.path.join(name, entry)
-        attrs = (int(not entry.startswith(".")), int(full.endswith("/input")), int(os.path.isdir(full)),
-                 int(os.path.abspath(full) == os.path.abspath(logfile)) if logfile else 0,
+        attrs = (index, int(not entry.startswith(".")), int(entry == "input"), int(isdir_of[entry]),
                  int(fnmatch.fnmatchcase(entry, "*.region???.gbk")))
         entries.append(attrs)
         digests[entry] = tree_digest(full)
-    flat = [kind, int(reuse), int(dmeta), len(entries)]
+    fresh = len(names)
+    if logspec:
+        env = [1, LOG_WHERE[log_where], names.index(logname) if logname in names else fresh]
+    else:
+        env = [0, 9, fresh]
+    env += [CWD_DIR[cwd_kind], names.index(cwd_entry) if cwd_kind == "entry" else fresh + 1]
+    # the name the code pastes into its glob pattern: "." and ".." contain no metacharacters
+    dmeta = dmeta and not (relname and cwd_kind in ("outdir", "entry"))
+    flat = env + [kind, int(reuse), int(dmeta), len(entries)]
     for attrs in entries:
         flat += list(attrs)
-    update_config({"logfile": logfile, "output_basename": "", "output_dir": name})
+    given_name = name
     try:
-        main.prepare_output_directory(name, "/data/in.json" if reuse else "/data/in.gbk")
-        out = [0]
-    except Exception as exc:  # pylint: disable=broad-except
-        out = [1, local_err_code(exc)]
+        os.chdir(cwd)
+        if relname:
+            given_name = os.path.relpath(name, cwd)
+        update_config({"logfile": logfile, "output_basename": "", "output_dir": given_name})
+        tail = []
+        if action is not None:
+            out, tail = action(given_name, os.path.join(name, json_name))
+        else:
+            try:
+                main.prepare_output_directory(given_name, "/data/in.json" if reuse else "/data/in.gbk")
+                out = [0]
+            except Exception as exc:  # pylint: disable=broad-except
+                out = [1, local_err_code(exc)]
+    finally:
+        os.chdir(original_cwd)
     after_kind = 0 if not os.path.exists(name) else (1 if os.path.isdir(name) else 2)
     after = []
     if after_kind == 1:
         index = {entry: i for i, entry in enumerate(names)}
         for entry in os.listdir(name):
-            if entry not in index:
+            if entry == json_name:                    # the JSON target is observed by its state, not here
+                if entry in index:
+                    after.append(index[entry])
+            elif entry not in index:
                 after.append(-1)
             elif tree_digest(os.path.join(name, entry)) != digests[entry]:
                 after.append(index[entry] + 1000)
             else:
                 after.append(index[entry])
         after.sort()
-    out += [after_kind, len(after)] + after
-    observed = [out[0], after_kind, len(after)] + after
-    return flat, out, observed, names
+    observed = [int(out == [0, 0]) if action is not None else out[0], after_kind, len(after)] + after + tail[:1]
+    if action is not None:
+        observed += [(len(tail) - 3) // 4]
+        for k in range(3, len(tail), 4):
+            observed += [tail[k], tail[k + 3]]
+        flat += [0 if json_name in names else 1]
+    out += [after_kind, len(after)] + after + tail
+    description = {"entries (listing order)": names, "config.logfile": logfile,
+                   "log file lives": log_where or "no --logfile",
+                   "current directory": cwd_kind + (f" ({cwd_entry})" if cwd_kind == "entry" else ""),
+                   "output directory given as": given_name if relname else "absolute path"}
+    return flat, out, observed, description
 
 
 def gen_dir_cases(chk, budget):
+    """ (kind, reuse, dmeta, entry classes, logspec, cwdspec, relname) """
     rng = chk.rng
     pool = list(ENTRY_MAKERS)
     cases = []
-    # the matrix: every single entry class and every pair with the benign ones, both modes
+    # the matrix: every single entry class and every pair with the benign ones, both modes; the log file
+    # (named run.log) inside the output directory, as before
+    inside = ("inside", "run.log", 0)
     for reuse in (False, True):
         for dmeta in (False, True):
-            cases.append((1, reuse, dmeta, [], 0))
+            cases.append((1, reuse, dmeta, [], None, "default", False))
             for cls in pool:
-                cases.append((1, reuse, dmeta, [cls], 0))
+                cases.append((1, reuse, dmeta, [cls], inside, "default", False))
                 for other in ("input_dir", "log", "region", "hidden"):
                     if other != cls:
-                        cases.append((1, reuse, dmeta, [other, cls], 0))
-        cases.append((0, reuse, False, [], 0))
-        cases.append((2, reuse, False, [], 0))
+                        cases.append((1, reuse, dmeta, [other, cls], inside, "default", False))
+        cases.append((0, reuse, False, [], None, "default", False))
+        cases.append((2, reuse, False, [], None, "default", False))
+    # where the log file lives x what carries its name x how it is spelled
+    for reuse in (False, True):
+        for classes_ in (["log"], ["logdir"], ["input_dir", "log"], ["input_dir", "logdir"], ["log", "file"],
+                         ["dir", "log"], ["dir", "logdir"], ["log_region"], ["input_dir"], ["dir"], ["file"], []):
+            lognames = ["run.log", "absent.log"] + (["log.region001.gbk"] if "log_region" in classes_ else []) \
+                + ([0] if classes_ and classes_[0] not in ("log", "logdir", "log_region") else [])
+            for where in LOG_WHERE:
+                for logname in lognames:
+                    for spelling in range(N_SPELLINGS):
+                        cases.append((1, reuse, False, classes_, (where, logname, spelling), "default", False))
+            cases.append((1, reuse, False, classes_, None, "default", False))          # no --logfile at all
+            # the current directory: inside the output directory, the output directory itself, its parent
+            for cwdspec in ("entry", "outdir", "base"):
+                for relname in (False, True):
+                    for logspec in (None, inside, ("logs", "run.log", 0), ("parent", "run.log", 3)):
+                        cases.append((1, reuse, False, classes_, logspec, cwdspec, relname))
     chk.count("dir_matrix_cases", len(cases))
+    lognames = ["run.log", "run.log", "absent.log", "log.region001.gbk", "input", 0, 1, 2]
     while len(cases) < budget:
         r = rng.random()
         kind = 1 if r < 0.9 else (0 if r < 0.95 else 2)
         n = rng.choice([0, 1, 1, 2, 2, 3, 3, 4, 5, 6])
-        weights = rng.choice([pool, ["input_dir", "log", "region", "hidden", "hidden_region", "region_dir"],
-                              ["input_dir", "log", "hidden", "hidden_dir"]])
+        weights = rng.choice([pool, ["input_dir", "log", "region", "hidden", "hidden_region", "region_dir", "logdir"],
+                              ["input_dir", "log", "hidden", "hidden_dir"], ["input_dir", "log", "logdir", "dir"]])
+        logspec = None
+        if rng.random() < 0.75:
+            logspec = (rng.choice(["inside", "inside", "parent", "logs", "logs", "sub"]), rng.choice(lognames),
+                       rng.randrange(N_SPELLINGS))
+        cwdspec = rng.choice(["default"] * 5 + ["entry", "entry", "outdir", "base"])
         cases.append((kind, rng.random() < 0.45, rng.random() < 0.1,
-                      [rng.choice(weights) for _ in range(n)] if kind == 1 else [], rng.choice([0, 0, 1, 2])))
+                      [rng.choice(weights) for _ in range(n)] if kind == 1 else [], logspec, cwdspec,
+                      cwdspec != "default" and rng.random() < 0.5))
+    return cases
+
+
+# ------------------------------------------------------------------ part 3: _run_antismash
+
+JSON_NAME = "in.json"       # canonical_base_filename of the inputs used below + ".json"
+STAGES = ["prereq", "read", "pre", "annotate", "outputs"]
+_pipeline = {}
+
+
+class FakeProfile:
+    def enable(self):
+        pass
+
+    def disable(self):
+        pass
+
+
+class PipelinePatches:
+    """ replaces the collaborators of main._run_antismash by recorders that follow the plan; the function
+        itself, prepare_output_directory and AntismashResults.write_to_file are the real ones """
+    def __init__(self, plan, hooks, results_obj):
+        self.plan, self.hooks, self.results_obj = plan, hooks, results_obj
+        self.saved = []
+
+    def step(self, code, i, fault):
+        self.hooks.event(code, i, 0)
+        if fault:
+            raise EXC[fault]("injected fault")
+
+    def index(self, record):
+        return int(record.id[1:])
+
+    def __enter__(self):
+        import types
+        from antismash import main
+        plan = self.plan
+
+        def verify_options(_options, _modules):
+            self.hooks.event(21, 0, 0)
+            return bool(plan["verify"])
+
+        def read_data(_sequence_file, _options):
+            self.step(22, 0, plan["read"])
+            return self.results_obj
+
+        def pre_process_sequences(records, _options, _genefinding):
+            self.step(24, 0, plan["pre"])
+            return records
+
+        def run_detection(record, _options, _module_results):
+            self.step(25, self.index(record), plan["recs"][self.index(record)][1])
+            return {}
+
+        def analyse_record(record, _options, _modules, _module_results):
+            self.step(26, self.index(record), plan["recs"][self.index(record)][3])
+            return {}
+
+        real_prepare = main.prepare_output_directory
+
+        def prepare_output_directory(name, input_file):      # observed, then the real one
+            self.hooks.event(23, 0, 0)
+            return real_prepare(name, input_file)
+
+        patches = [
+            (main, "prepare_output_directory", prepare_output_directory),
+            (main, "_log_found_executables", lambda _options: None),
+            (main, "check_prerequisites", lambda _modules, _options: self.step(20, 0, plan["prereq"])),
+            (main, "verify_options", verify_options),
+            (main, "read_data", read_data),
+            (main.record_processing, "pre_process_sequences", pre_process_sequences),
+            (main, "run_detection", run_detection),
+            (main, "analyse_record", analyse_record),
+            (main, "annotate_records", lambda _results: self.step(28, 0, plan["annotate"])),
+            (main, "write_outputs", lambda _results, _options: self.step(29, 0, plan["outputs"])),
+            (main, "write_profiling_results", lambda _profiler, _target: self.hooks.event(30, 0, 0)),
+            (main, "cProfile", types.SimpleNamespace(Profile=FakeProfile)),
+        ]
+        for module, name, replacement in patches:
+            self.saved.append((module, name, getattr(module, name)))
+            setattr(module, name, replacement)
+        return self
+
+    def __exit__(self, *_args):
+        for module, name, original in self.saved:
+            setattr(module, name, original)
+        return False
+
+
+def pipeline_options():
+    """ a full antiSMASH configuration, built once """
+    if "options" not in _pipeline:
+        from antismash import main
+        from antismash.config import build_config
+        _pipeline["options"] = build_config(["--minimal"], isolated=True, modules=main.get_all_modules())
+    return _pipeline["options"]
+
+
+def impl_pipeline(plan, kind, reuse, dmeta, classes_, logspec, cwdspec, records, results, base, specs=None):
+    """ the real main._run_antismash on a real directory with patched collaborators """
+    from antismash import main
+    from antismash.common import serialiser
+    from antismash.config import update_config
+    options = pipeline_options()
+    if specs is None:
+        specs = [ENTRY_MAKERS[cls](k) for k, cls in enumerate(classes_)]
+    if not isinstance(cwdspec, tuple):
+        cwdspec = (cwdspec, None)
+    if logspec and isinstance(logspec[1], int):
+        logspec = (logspec[0], specs[logspec[1] % len(specs)][0] if specs else "run.log", logspec[2])
+
+    class PhaseResults(serialiser.AntismashResults):
+        """ only tells the recorders that the conversions now belong to write_to_file """
+        def write_to_file(self, handle):
+            hooks.phase = "write"
+            try:
+                return super().write_to_file(handle)
+            finally:
+                hooks.phase = "pipeline"
+
+    hooks = Hooks(None, None)
+    hooks.phase = "pipeline"
+
+    def action(given_name, json_path):
+        hooks.path = json_path
+        recs, res = build_objects(hooks, records, results)
+        for rec, (skip, _fdet, regions, _fana) in zip(recs, plan["recs"]):
+            rec.skip = "skipped for the test" if skip else None
+            rec.pipeline_regions = bool(regions)
+        results_obj = PhaseResults("in.gbk", recs, res, "v")
+        update_config({"reuse_results": "/data/in.json" if reuse else None, "profile": bool(plan["profile"]),
+                       "debug": False, "list_plugins": False, "check_prereqs_only": False})
+        counter = ErrorCounter()
+        root = logging.getLogger()
+        other_handlers, root.handlers = root.handlers, [counter]
+        logging.disable(logging.NOTSET)
+        try:
+            with PipelinePatches(plan, hooks, results_obj):
+                code = main._run_antismash(None if reuse else "/data/in.gbk", options)  # pylint: disable=protected-access
+            out = [0, code]
+        except Exception as exc:  # pylint: disable=broad-except
+            out = [1, local_err_code(exc)]
+        finally:
+            logging.disable(logging.CRITICAL)
+            root.handlers = other_handlers
+        tail = [file_state(json_path), counter.count, len(hooks.trace)]
+        for event in hooks.trace:
+            tail += list(event)
+        return out, tail
+
+    flat, out, observed, info = impl_prepare_specs(kind, reuse, dmeta, specs, logspec, cwdspec, False, base,
+                                                   action=action, json_name=JSON_NAME)
+    payload = enc_plan(plan) + flat + enc_write_input(0, 0, records, results)[2:]
+    return payload, out, observed, info
+
+
+def enc_plan(plan):
+    flat = [plan["prereq"], int(plan["verify"]), plan["read"], plan["pre"], plan["annotate"], plan["outputs"],
+            int(plan["profile"]), len(plan["recs"])]
+    for rec in plan["recs"]:
+        flat += [int(x) for x in rec]
+    return flat
+
+
+def clean_pipeline_plan(rng, nrec):
+    return {"prereq": 0, "verify": 1, "read": 0, "pre": 0, "annotate": 0, "outputs": 0,
+            "profile": int(rng.random() < 0.3),
+            "recs": [(int(rng.random() < 0.15), 0, int(rng.random() < 0.7), 0) for _ in range(nrec)]}
+
+
+DIR_SCENARIOS = [
+    # (kind, reuse, dmeta, entry classes, logspec)
+    (0, False, False, [], None),                                              # fresh directory
+    (0, True, False, [], None),
+    (1, False, False, [], None),                                              # existing, empty
+    (1, False, False, ["input_dir", "log"], ("inside", "run.log", 0)),        # nothing foreign
+    (1, False, False, ["input_dir", "log"], ("logs", "run.log", 0)),          # same name, log file elsewhere
+    (1, False, False, ["json", "region", "file"], None),                      # a previous run, fresh input
+    (1, True, False, ["json", "region", "file"], None),                       # a previous run, reused
+    (1, True, False, ["json", "region_dir"], None),                           # os.remove fails on a directory
+    (1, True, False, ["file"], None),                                         # reuse from elsewhere
+    (1, False, False, ["hidden"], None),                                      # FC20a
+    (1, False, True, ["json", "file"], None),                                 # FC20b
+    (2, False, False, [], None),                                              # not a directory
+]
+
+
+def gen_pipeline_cases(chk, budget):
+    """ (plan, kind, reuse, dmeta, entry classes, logspec, cwdspec, records, results) """
+    rng = chk.rng
+    cases = []
+    # systematic: every stage fault, verify_options failing, every conversion position, on every scenario
+    for scenario in DIR_SCENARIOS:
+        records, results = clean_plan(rng, 2, 2)
+        results = [[(2, 0, m[2], m[3]) for m in mods] for mods in results[:2]]
+        base_plan = clean_pipeline_plan(rng, 2)
+        base_plan["recs"] = [(0, 0, 1, 0), (0, 0, 0, 0)]
+        cases.append((base_plan,) + scenario + ("default", records, results))
+        for stage in STAGES:
+            cases.append((dict(base_plan, **{stage: rng.choice(FAULT_KINDS)}),) + scenario
+                         + ("default", records, results))
+        cases.append((dict(base_plan, verify=0),) + scenario + ("default", records, results))
+        cases.append((dict(base_plan, profile=1),) + scenario + ("default", records, results))
+        for k in (1, 3):
+            recs = [(0, rng.choice(FAULT_KINDS) if k == 1 else 0, 1, rng.choice(FAULT_KINDS) if k == 3 else 0),
+                    (0, 0, 1, 0)]
+            cases.append((dict(base_plan, recs=recs),) + scenario + ("default", records, results))
+        for pos in positions(records, results):
+            if pos[0] == "t":
+                continue
+            plan = apply_fault(records, results, 0, pos, rng.choice(FAULT_KINDS[:4]), rng)
+            cases.append((base_plan,) + scenario + ("default", plan[0], plan[1]))
+    chk.count("pipeline_systematic_cases", len(cases))
+    pool = ["file", "dir", "input_dir", "log", "region", "region_dir", "hidden", "json", "json", "gbk", "logdir"]
+    while len(cases) < budget:
+        nrec = rng.choice([0, 1, 1, 2, 2, 3])
+        records, results = clean_plan(rng, nrec, None)
+        plan = clean_pipeline_plan(rng, nrec)
+        r = rng.random()
+        if r < 0.35:
+            stage = rng.choice(STAGES + ["verify", "det", "ana"])
+            if stage == "verify":
+                plan["verify"] = 0
+            elif stage in ("det", "ana") and nrec:
+                i = rng.randrange(nrec)
+                rec = list(plan["recs"][i])
+                rec[1 if stage == "det" else 3] = rng.choice(FAULT_KINDS)
+                plan["recs"][i] = tuple(rec)
+            elif stage in STAGES:
+                plan[stage] = rng.choice(FAULT_KINDS)
+        elif r < 0.7:
+            for _ in range(rng.choice([1, 1, 2])):
+                pos = [p for p in positions(records, results) if p[0] != "t"]
+                if pos:
+                    records, results, _tl = apply_fault(records, results, 0, rng.choice(pos),
+                                                        rng.choice(FAULT_KINDS), rng)
+        if rng.random() < 0.4:
+            scenario = rng.choice(DIR_SCENARIOS)
+        else:
+            kind = rng.choice([0, 1, 1, 1, 1, 2])
+            logspec = None
+            if rng.random() < 0.5:
+                logspec = (rng.choice(["inside", "parent", "logs", "sub"]), rng.choice(["run.log", "absent.log", 0]),
+                           rng.randrange(N_SPELLINGS))
+            scenario = (kind, rng.random() < 0.5, rng.random() < 0.08,
+                        [rng.choice(pool) for _ in range(rng.choice([0, 1, 2, 2, 3, 4]))] if kind == 1 else [], logspec)
+        cases.append((plan,) + tuple(scenario) + (rng.choice(["default"] * 6 + ["entry", "outdir"]), records, results))
     return cases
 
 
@@ -513,14 +914,20 @@ def gen_dir_cases(chk, budget):
 
 RULE = ("write_to_file / dump_records: fault plans over 0-5 records x 0-4 results per record (None / ModuleResults / "
         "other object), a pre-existing target file with known bytes (or a new path, an open handle, a path in a missing "
-        "directory, handle=None); systematic part = every conversion position (to_biopython, record_to_json, "
-        "gather_record_areas, get_gc_content, each to_json, each custom object met by json.dumps, timings, results "
-        "shorter than records, non-ModuleResults value) of every grid up to 2x3 (quick) / 3x4 (thorough) with every "
-        "exception kind; random part = 0, 1 or several faults; prepare_output_directory: real temporary directories, "
-        "matrix of every entry class alone and paired with input dir / log file / region file / hidden file, both modes, "
-        "plain and glob-pattern directory names, plus random listings of 0-6 entries; non-trivial = a write case with at "
-        "least one record and at least one fault or a successful write, a directory case with at least one entry; "
-        "distinct by flat encoding")
+        "directory, handle=None, or a path whose open succeeds and whose write raises OSError); systematic part = every "
+        "conversion position (to_biopython, record_to_json, gather_record_areas, get_gc_content, each to_json, each "
+        "custom object met by json.dumps, timings, results shorter than records, non-ModuleResults value) of every grid "
+        "up to 2x3 (quick) / 3x4 (thorough) with every exception kind; random part = 0, 1 or several faults; "
+        "prepare_output_directory: real temporary directories, matrix of every entry class alone and paired with input "
+        "dir / log file / region file / hidden file, both modes, plain and glob-pattern directory names; log file "
+        "inside / in the parent / in a sub-directory / in an unrelated directory x carrying the name of an entry (file "
+        "or directory) or not x 5 spellings of the path (plain, /./, dir/../dir, relative, //) x no --logfile; current "
+        "directory = an entry of the output directory / the output directory / its parent, output directory given "
+        "absolute or relative; plus random listings of 0-6 entries; _run_antismash: the real function on real "
+        "directories with recorded collaborators, 12 directory scenarios x every stage fault / verify_options failing / "
+        "every conversion position, plus random plans; non-trivial = a write case with at least one record and at least "
+        "one fault or a successful write, a directory case with at least one entry, every pipeline case; distinct by "
+        "flat encoding")
 
 
 def run(chk):
@@ -529,6 +936,7 @@ def run(chk):
     quick = chk.tier == "quick"
     n_write = 20000 if quick else 300000
     n_dir = 6000 if quick else 60000
+    n_pipe = 2500 if quick else 40000
     known = {f["class"]: f for f in common.load_known_findings("C20") if f.get("status") == "known"}
     cases, impl_outs, spec_cases, descr = [], [], [], []
     workdir = tempfile.mkdtemp(prefix="asv_c20_")
@@ -552,20 +960,49 @@ def run(chk):
             chk.note_case(flat, nontrivial, {"input": descr[-1], "implementation": out})
         base = os.path.join(workdir, "dirs")
         os.mkdir(base)
-        for kind, reuse, dmeta, classes_, logmode in gen_dir_cases(chk, n_dir):
-            payload, out, observed, names = impl_prepare(kind, reuse, dmeta, classes_, logmode, base)
+        for kind, reuse, dmeta, classes_, logspec, cwdspec, relname in gen_dir_cases(chk, n_dir):
+            payload, out, observed, info = impl_prepare(kind, reuse, dmeta, classes_, logspec, cwdspec, relname, base)
+            names = info["entries (listing order)"]
             flat = [PROP, 3] + payload
             cases.append(flat)
             impl_outs.append(out)
             spec_cases.append([PROP, 13] + payload + observed)
-            descr.append({"function": "prepare_output_directory", "exists": {0: "no", 1: "directory", 2: "file"}[kind],
-                          "reuse (input ends with .json)": reuse, "directory name is a glob pattern": dmeta,
-                          "entries (listing order)": names})
+            descr.append(dict({"function": "prepare_output_directory",
+                               "exists": {0: "no", 1: "directory", 2: "file"}[kind],
+                               "reuse (input ends with .json)": reuse,
+                               "directory name is a glob pattern": bool(payload[7])},
+                              **info))
             chk.count("prepare_output_directory")
             chk.count(f"dir_entries_{len(names)}")
             chk.count("dir_mode_reuse" if reuse else "dir_mode_fresh")
+            chk.count("dir_log_" + str(info["log file lives"]).replace(" ", "_"))
+            if payload[0] and payload[2] < len(names):
+                chk.count("dir_log_name_carried_by_an_entry_" + ("inside" if payload[1] == 0 else "elsewhere"))
+            chk.count("dir_cwd_" + info["current directory"].split(" ")[0])
             chk.count("dir_outcome_ok" if out[0] == 0 else f"dir_outcome_error_{out[1]}")
             chk.note_case(flat, kind == 1 and bool(names), {"input": descr[-1], "implementation": out})
+        for plan, kind, reuse, dmeta, classes_, logspec, cwdspec, records, results in gen_pipeline_cases(chk, n_pipe):
+            payload, out, observed, info = impl_pipeline(plan, kind, reuse, dmeta, classes_, logspec, cwdspec,
+                                                         records, results, base)
+            flat = [PROP, 4] + payload
+            cases.append(flat)
+            impl_outs.append(out)
+            spec_cases.append([PROP, 14] + payload + observed)
+            descr.append(dict({"function": "_run_antismash",
+                               "stage plan (fault codes; recs = skip, run_detection fault, regions found, "
+                               "analyse_record fault)": plan,
+                               "output directory exists": {0: "no", 1: "directory", 2: "file"}[kind],
+                               "reuse (--reuse-results)": reuse,
+                               "records [fault to_biopython, record_to_json, gather_record_areas, get_gc_content, "
+                               "original_id]": records,
+                               "results [kind, to_json fault, value, object met by json.dumps]": results}, **info))
+            chk.count("run_antismash")
+            chk.count("pipeline_outcome_" + ("return_%d" % out[1] if out[0] == 0 else
+                                             "error_" + {E_INPUT: "AntismashInputError"}.get(
+                                                 out[1], common.ERR_NAME.get(out[1], str(out[1])))))
+            chk.count("pipeline_events", observed[observed[2] + 4])
+            chk.count("pipeline_json_state_after_%d" % observed[observed[2] + 3])
+            chk.note_case(flat, True, {"input": descr[-1], "implementation": out})
     finally:
         shutil.rmtree(workdir, ignore_errors=True)
     model_outs = common.correspondence(chk, cases, impl_outs,
@@ -619,19 +1056,62 @@ def replay(chk, path):
             print("implementation now:", out, "spec verdict:", verdict)
             model = common.run_driver([flat])[0]
             return 1 if (verdict[0] != 1 or model != out) else 0
-        kind, reuse, dmeta, count = payload[:4]
+        plan = None
+        if fn == 4:
+            nrec = payload[7]
+            plan = dict(zip(["prereq", "verify", "read", "pre", "annotate", "outputs", "profile"], payload[:7]))
+            plan["recs"] = [tuple(payload[8 + 4 * i: 12 + 4 * i]) for i in range(nrec)]
+            payload = payload[8 + 4 * nrec:]
+        lg_given, lg_dir, lg_base, cwd_dir, cwd_base = payload[:5]
+        kind, reuse, dmeta, count = payload[5:9]
         specs = []
         for k in range(count):
-            visible, is_input, isdir, islog, region = payload[4 + 5 * k: 9 + 5 * k]
+            _name, visible, is_input, isdir, region = payload[9 + 5 * k: 14 + 5 * k]
             entry = "input" if is_input else (f"e{k}.region001.gbk" if region else f"e{k}")
-            specs.append((entry if visible else "." + entry, bool(isdir), bool(islog)))
+            specs.append((entry if visible else "." + entry, bool(isdir)))
+        rest = payload[9 + 5 * count:]
+        if fn == 4 and rest[0] == 0:
+            # the old JSON is one of the plain visible files (preferably not the one carrying the log's name)
+            plain = [k for k in range(count) if specs[k][0] == f"e{k}" and not specs[k][1]]
+            plain.sort(key=lambda k: payload[9 + 5 * k] == lg_base)
+            specs[plain[0]] = (JSON_NAME, False)
+        by_id = {payload[9 + 5 * k]: specs[k][0] for k in range(count)}
+        logspec = None
+        if lg_given:
+            where = {v: k for k, v in LOG_WHERE.items()}.get(lg_dir, "logs")
+            logspec = (where, by_id.get(lg_base, "fresh.log"), 0)
+        cwd_kind = {v: k for k, v in CWD_DIR.items()}.get(cwd_dir, "default")
+        cwdspec = (cwd_kind, by_id.get(cwd_base) if cwd_kind == "entry" else None)
         base = os.path.join(workdir, "dirs")
         os.mkdir(base)
-        flat2, out, observed, names = impl_prepare_specs(kind, bool(reuse), bool(dmeta), specs, 0, base)
+        known = {f["class"] for f in common.load_known_findings("C20") if f.get("status") == "known"}
+        if fn == 4:
+            pos = 1
+            nrec = rest[pos]
+            records = [tuple(rest[pos + 1 + 5 * i: pos + 6 + 5 * i]) for i in range(nrec)]
+            pos += 1 + 5 * nrec
+            nres = rest[pos]
+            pos += 1
+            results = []
+            for _ in range(nres):
+                nmod = rest[pos]
+                pos += 1
+                results.append([tuple(rest[pos + 4 * j: pos + 4 * j + 4]) for j in range(nmod)])
+                pos += 4 * nmod
+            payload2, out, observed, info = impl_pipeline(plan, kind, bool(reuse), bool(dmeta), None, logspec, cwdspec,
+                                                          records, results, base, specs=specs)
+            model = common.run_driver([[PROP, 4] + payload2])[0]
+            verdict = common.run_driver([[PROP, 14] + payload2 + observed])[0]
+            print("directory:", info, "implementation now:", out, "model:", model,
+                  "spec verdict [ok, guard, class]:", verdict)
+            excused = verdict[0] == 0 and verdict[1] == 0 and FINDING_CLASSES.get(verdict[2]) in known
+            return 1 if (model != out or (verdict[0] != 1 and not excused)) else 0
+        flat2, out, observed, info = impl_prepare_specs(kind, bool(reuse), bool(dmeta), specs, logspec, cwdspec,
+                                                        False, base)
+        names = info
         model = common.run_driver([[PROP, 3] + flat2])[0]
         verdict = common.run_driver([[PROP, 13] + flat2 + observed])[0]
         print("entries:", names, "implementation now:", out, "model:", model, "spec verdict [ok, guard, class]:", verdict)
-        known = {f["class"] for f in common.load_known_findings("C20") if f.get("status") == "known"}
         excused = verdict[0] == 0 and verdict[1] == 0 and FINDING_CLASSES.get(verdict[2]) in known
         return 1 if (model != out or (verdict[0] != 1 and not excused)) else 0
     finally:
